@@ -8,6 +8,7 @@ RTP, advertising data, addresses, UUIDs (including the process-wide registry as 
 import struct
 
 from vf.e1 import harness, registered
+from vf import flags as _flags
 from vf import gencodec
 
 from bumble import core, hci, l2cap, rfcomm, sdp, att, avdtp, avctp, rtp
@@ -465,3 +466,6 @@ def conditions():
     out = registered(__name__)
     out += gencodec.conditions(['att', 'smp', 'l2capsig', 'avdtp'])
     return out
+
+
+_flags.int_format_placeholder = True     # log f-strings with symbolic ints are not the subject here (see vf/flags.py)
